@@ -170,11 +170,16 @@ def run_case(case, rep, record=True):
         compare_1d_2d(h, o1, o2, "reset")
         for op in case["ops"]:
             nops += 1
-            if op[0] in ("x", "g", "o"):
+            if op[0] in ("x", "g", "b"):
                 continue
-            act = h.choose(op)
-            side, seed, draw = h.pick_seed(act, op[-2], op[-1])
-            rec = h.exec_step(act, op[-2], op[-1])
+            if op[0] == "o":
+                act = M.Act("noop", (1, 0))
+                rec = h.exec_step(act, "lo", 0)
+                side = "lo"
+            else:
+                act = h.choose(op)
+                side, seed, draw = h.pick_seed(act, op[-2], op[-1])
+                rec = h.exec_step(act, op[-2], op[-1])
             out1 = rec.ret
             np.random.seed(rec.seed)
             out2 = h2.env.step(h2.real_action(act))
